@@ -256,7 +256,7 @@ func TestBytes(t *testing.T) {
 			}
 			return out
 		},
-		Quick: 20000, Thorough: 400000,
+		Quick: 20000, Thorough: 200000,
 	})
 }
 
@@ -735,6 +735,6 @@ func TestMarshalForms(t *testing.T) {
 			}
 			return out
 		},
-		Quick: 10000, Thorough: 150000,
+		Quick: 10000, Thorough: 80000,
 	})
 }
